@@ -278,13 +278,15 @@ Fixpoint recode (enc : str -> list byte) (v : sstring) : option sstring :=
   | p :: v' => option_map (cons p) (recode enc v')
   end.
 
-(* bytes(val) = str(val).encode() *)
-Definition sbytes (v : sstring) : list byte := utf8 (to_plain false v).
+(* bytes(val) = val.to_plain(regex=True).encode(): the characters of the string itself
+   (after the repair of D8; before it the escaped plain form was encoded) *)
+Definition sbytes (v : sstring) : list byte := utf8 (to_plain true v).
 
 (* base64offset *)
 Definition b64_offset (v : sstring) (i : nat) : sstring :=
   let start := match i with 0 => 0 | 1 => 2 | _ => 3 end%nat in
-  let stop := match Nat.modulo (slen v + i) 3 with 0 => None | 1 => Some 3 | _ => Some 2 end%nat in
+  (* the cut-off depends on the number of encoded bytes (after the repair of D7) *)
+  let stop := match Nat.modulo (length (sbytes v) + i) 3 with 0 => None | 1 => Some 3 | _ => Some 2 end%nat in
   parse true (py_slice (b64 (repeat c_space i ++ sbytes v)) start stop).
 
 (* ---------- type_check: accepted classes read off the modify() annotations ---------- *)
